@@ -208,6 +208,8 @@ pub enum HOp {
     Reopen,
     /// memory().evict_all()
     EvictAll,
+    /// Make disk lookups answer `Throttled` from now on (test_utils `LoadThrottleSwitch`).
+    ThrottleLoads,
 }
 
 impl HOp {
@@ -239,6 +241,7 @@ pub fn prog_text(p: &[HOp]) -> String {
             HOp::Close => "close".into(),
             HOp::Reopen => "reopen".into(),
             HOp::EvictAll => "evict_all".into(),
+            HOp::ThrottleLoads => "throttle_loads".into(),
         })
         .collect::<Vec<_>>()
         .join("; ")
@@ -811,6 +814,9 @@ impl World {
             }
             HOp::EvictAll => {
                 cache.memory().evict_all();
+            }
+            HOp::ThrottleLoads => {
+                cache.storage().load_throttle_switch().throttle();
             }
             HOp::Contains { k } => {
                 let c = cache.contains(&k);
